@@ -826,6 +826,19 @@ class Executor:
                 nd_set(obj, list(k), v)
                 self._mutated(obj, 'setitem')
                 return
+            if isinstance(k, tuple) and len(k) == 2 and all(isinstance(x, VList) and all(isinstance(i, int) and not isinstance(i, bool) for i in x.items) for x in k) \
+                    and len(k[0].items) == len(k[1].items):
+                # fancy assignment a[rows, cols] = vals : a[rows[t], cols[t]] = vals[t] in order (later writes win)
+                vals = [v] * len(k[0].items) if is_scalar(exact(v)) else self.iterate(v)
+                if len(vals) != len(k[0].items):
+                    raise PyRaise('ValueError', 'shape mismatch in fancy assignment')
+                try:
+                    for r_, c_, x in zip(k[0].items, k[1].items, vals):
+                        obj.items[r_].items[c_] = x
+                except (IndexError, AttributeError):
+                    raise PyRaise('IndexError', 'fancy index out of range')
+                self._mutated(obj, 'setitem')
+                return
             if isinstance(k, VList) and k.kind == 'ndarray' and len(k.items) == len(obj.items) and is_scalar(exact(v)) and k.items \
                     and all(isinstance(i, (bool, VList)) or (isinstance(i, z3.ExprRef) and z3.is_bool(i)) for i in k.items):
                 # boolean-mask assignment arr[mask] = scalar
@@ -1419,6 +1432,8 @@ class Executor:
             return PyFn(table[name], 'list.' + name)
         if name in getattr(obj, 'attrs', {}):
             return obj.attrs[name]
+        if name == 'sum' and obj.kind == 'ndarray':
+            return PyFn(lambda *a, **k: self.np_sum(obj, *a, **k), 'ndarray.sum')
         if name == 'T' and obj.kind == 'ndarray':
             if obj.items and all(isinstance(r, VList) and r.items and not isinstance(r.items[0], VList) for r in obj.items):
                 return VList([VList([r.items[j] for r in obj.items], 'ndarray') for j in range(len(obj.items[0].items))], 'ndarray')
@@ -1538,6 +1553,12 @@ class Executor:
                     except IndexError:
                         raise PyRaise('IndexError', 'index %r out of range' % (k0,))
                 return nd(obj, list(k))
+            if isinstance(k, tuple) and len(k) == 2 and all(isinstance(x, VList) and all(isinstance(i, int) and not isinstance(i, bool) for i in x.items) for x in k) \
+                    and len(k[0].items) == len(k[1].items):
+                try:
+                    return VList([obj.items[r_].items[c_] for r_, c_ in zip(k[0].items, k[1].items)], 'ndarray')     # fancy indexing a[rows, cols]
+                except (IndexError, AttributeError):
+                    raise PyRaise('IndexError', 'fancy index out of range')
             if isinstance(k, Tm):
                 return Tm('getitem', obj, k)
             if isinstance(k, (VList, list)) and all(isinstance(i, int) and not isinstance(i, bool) for i in (k.items if isinstance(k, VList) else k)):
@@ -1826,7 +1847,7 @@ class Executor:
                     def one(*v):
                         if any(isinstance(i, VList) for i in v):
                             m = max(len(i.items) for i in v if isinstance(i, VList))
-                            cols = [i.items if isinstance(i, VList) else [i] * m for i in v]
+                            cols = [(i.items * m if len(i.items) == 1 and m > 1 else i.items) if isinstance(i, VList) else [i] * m for i in v]
                             if any(len(c) != m for c in cols):
                                 raise PyRaise('ValueError', 'operands could not be broadcast together')
                             return VList([one(*t) for t in zip(*cols)], 'ndarray')
@@ -2032,9 +2053,18 @@ class Executor:
                 return r
         return Tm('call:numpy.sum', x, *a, *[('kw', kk, v) for kk, v in sorted(k.items())])
 
+    def _flat_leaves(self, x):
+        out = []
+        for i in x.items:
+            out += self._flat_leaves(i) if isinstance(i, VList) else [i]
+        return out
+
     def np_any(self, x):
         if isinstance(x, VList):
-            cs = [to_z3(c) if not isinstance(c, bool) else z3.BoolVal(c) for c in x.items]
+            leaves = self._flat_leaves(x)
+            if all(isinstance(c, bool) for c in leaves):
+                return any(leaves)
+            cs = [to_z3(c) if not isinstance(c, bool) else z3.BoolVal(c) for c in leaves]
             return z3.simplify(z3.Or(cs)) if cs else False
         if isinstance(x, Tm):
             return named_bool('any(%s)' % vrepr(x))
@@ -2042,7 +2072,10 @@ class Executor:
 
     def np_all(self, x):
         if isinstance(x, VList):
-            cs = [to_z3(c) if not isinstance(c, bool) else z3.BoolVal(c) for c in x.items]
+            leaves = self._flat_leaves(x)
+            if all(isinstance(c, bool) for c in leaves):
+                return all(leaves)
+            cs = [to_z3(c) if not isinstance(c, bool) else z3.BoolVal(c) for c in leaves]
             return z3.simplify(z3.And(cs)) if cs else True
         if isinstance(x, Tm):
             return named_bool('all(%s)' % vrepr(x))
